@@ -270,7 +270,8 @@ unsigned int OneDimensionOptimizationTools::lineSearch(
   // Update parameters:
   // parameters.matchParametersValues(f1dim.getFunction()->getParameters());
 
-  double xmin = f1dim->getParameters()[0].getValue();
+  // The abscissa retained by the optimizer (0 if the search failed), not the last trial evaluated:
+  double xmin = nbod.getParameters()[0].getValue();
   for (unsigned int j = 0; j < parameters.size(); ++j)
   {
     xi[j] *= xmin;
